@@ -21,6 +21,15 @@ type zzCrashStor struct {
 	crashAt int  // the mutation with this number, and every later one, fails (-1: never)
 	dead    bool
 	open    []interface{ Close() error }
+	// durability monitor: files with bytes written since their last Sync
+	dirty map[storage.FileDesc]bool
+}
+
+func (s *zzCrashStor) markDirty(fd storage.FileDesc, d bool) {
+	if s.dirty == nil {
+		s.dirty = map[storage.FileDesc]bool{}
+	}
+	s.dirty[fd] = d
 }
 
 func (s *zzCrashStor) tick() error {
@@ -37,19 +46,22 @@ func (s *zzCrashStor) tick() error {
 
 type zzCrashWriter struct {
 	storage.Writer
-	s *zzCrashStor
+	s  *zzCrashStor
+	fd storage.FileDesc
 }
 
 func (w *zzCrashWriter) Write(p []byte) (int, error) {
 	if err := w.s.tick(); err != nil {
 		return 0, err
 	}
+	w.s.markDirty(w.fd, true)
 	return w.Writer.Write(p)
 }
 func (w *zzCrashWriter) Sync() error {
 	if err := w.s.tick(); err != nil {
 		return err
 	}
+	w.s.markDirty(w.fd, false)
 	return w.Writer.Sync()
 }
 
@@ -62,7 +74,7 @@ func (s *zzCrashStor) Create(fd storage.FileDesc) (storage.Writer, error) {
 		return nil, err
 	}
 	s.open = append(s.open, w)
-	return &zzCrashWriter{w, s}, nil
+	return &zzCrashWriter{w, s, fd}, nil
 }
 func (s *zzCrashStor) Open(fd storage.FileDesc) (storage.Reader, error) {
 	r, err := s.Storage.Open(fd)
@@ -75,6 +87,12 @@ func (s *zzCrashStor) Remove(fd storage.FileDesc) error {
 	if err := s.tick(); err != nil {
 		return err
 	}
+	if fd.Type == storage.TypeManifest {
+		// the manifest CURRENT names is never removed
+		cur, err := s.Storage.GetMeta()
+		vpAssert(err != nil || cur != fd, "current-manifest-never-removed")
+	}
+	delete(s.dirty, fd)
 	return s.Storage.Remove(fd)
 }
 func (s *zzCrashStor) Rename(a, b storage.FileDesc) error {
@@ -86,6 +104,14 @@ func (s *zzCrashStor) Rename(a, b storage.FileDesc) error {
 func (s *zzCrashStor) SetMeta(fd storage.FileDesc) error {
 	if err := s.tick(); err != nil {
 		return err
+	}
+	// the pointer may only name a manifest whose bytes are durable, and every
+	// table written so far must be durable before a manifest that may name it is current
+	vpAssert(!s.dirty[fd], "current-points-only-to-a-synced-manifest")
+	for f, d := range s.dirty {
+		if f.Type == storage.TypeTable {
+			vpAssert(!d, "tables-synced-before-the-manifest-switch")
+		}
 	}
 	return s.Storage.SetMeta(fd)
 }
@@ -181,3 +207,57 @@ func ZZ_C04_recover_witness() {
 }
 
 var _ = opt.DefaultBlockSize
+
+// C18-ro: opening read-only replays the journals into memory without a single
+// storage mutation, and serves the journal-only data.
+func ZZ_C18_readonly() {
+	mem := storage.NewMemStorage()
+	s0 := zzSession(mem, 64<<20)
+	vpAssert(s0.create() == nil, "setup-create")
+	s0.markFileNum(4)
+	rec := &sessionRecord{}
+	rec.setJournalNum(3)
+	rec.setSeqNum(0)
+	vpAssert(s0.commit(rec, false) == nil, "setup-commit")
+	s0.manifest.Close()
+	s0.manifestWriter.Close()
+	k1, k2 := []byte{vpNondetU8()}, []byte{vpNondetU8()}
+	v1, v2 := []byte{vpNondetU8()}, []byte{vpNondetU8()}
+	w, _ := mem.Create(storage.FileDesc{Type: storage.TypeJournal, Num: 3})
+	jw := journal.NewWriter(w)
+	b := new(Batch)
+	b.Put(k1, v1)
+	wr, _ := jw.Next()
+	writeBatchesWithHeader(wr, []*Batch{b}, 1)
+	b2 := new(Batch)
+	if vpChoose(2) == 0 {
+		b2.Put(k2, v2)
+	} else {
+		b2.Delete(k2)
+	}
+	del2 := b2.index[0].keyType == keyTypeDel
+	wr, _ = jw.Next()
+	writeBatchesWithHeader(wr, []*Batch{b2}, 2)
+	jw.Close()
+	w.Close()
+
+	cs := &zzCrashStor{Storage: mem, crashAt: -1}
+	s := zzSession(cs, 64<<20)
+	s.tops = newTableOps(s)
+	vpAssert(s.recover() == nil, "recover-ok")
+	db := &DB{s: s, seq: s.stSeqNum, memPool: make(chan *memdb.DB, 1)}
+	vpAssert(db.recoverJournalRO() == nil, "readonly-replay-ok")
+	vpAssert(cs.ops == 0, "readonly-open-mutates-nothing")
+	// the journal-only data is served
+	got2, err2 := db.get(nil, nil, k2, db.seq, nil)
+	if del2 {
+		vpAssert(err2 == ErrNotFound, "readonly-serves-journal-delete")
+	} else {
+		vpAssert(err2 == nil && len(got2) == 1 && got2[0] == v2[0], "readonly-serves-journal-put")
+	}
+	got1, err1 := db.get(nil, nil, k1, db.seq, nil)
+	if k1[0] != k2[0] {
+		vpAssert(err1 == nil && len(got1) == 1 && got1[0] == v1[0], "readonly-serves-older-journal-put")
+	}
+	vpAssert(cs.ops == 0, "reads-mutate-nothing")
+}
